@@ -449,6 +449,9 @@ func init() {
 		if r.Chance(1, 6) {
 			return []lcw.Input{scatteredMounts(r)}
 		}
+		if r.Chance(1, 6) { // a mount of the layer hidden by a later mount on an ancestor directory (r5_c03.go)
+			return []lcw.Input{coveredMount(r)}
+		}
 		in.Steps = append(in.Steps, priorMounts(r, ws, in.Cfg, r.Chance(1, 3))...)
 		in.Steps = append(in.Steps, step("mount", pickLayer(r, ws).Name, "", false))
 		if r.Chance(1, 3) { // manual submount tree below a build root
